@@ -301,6 +301,7 @@ class _Counter:
         self.n = 0
         self.last = {}      # kind -> last name given to an item of that kind (for deliberate duplicates)
         self.classes = []   # names of the classes currently open
+        self.defs = []      # enclosing function/macro items (finished header fields)
 
     def next(self):
         self.n += 1
@@ -372,8 +373,16 @@ def _fin_items(lst, c, in_body):
             if dup and c.n % 3 == 0 and c.last.get("func-params") is not None:
                 it["params"] = list(c.last["func-params"])      # a redefinition with the identical parameter list
             c.last["func-params"] = list(it["params"])
+            if dup and c.defs and c.defs[-1]["doc"] is None and c.n % 2 == 0:
+                # the "run once" idiom: a nested definition that repeats its (undocumented) enclosing definition exactly
+                par = c.defs[-1]
+                it["cmd"], it["name"], it["params"], it["doc"] = par["cmd"], par["name"], list(par["params"]), None
+                c.last["func"][-1] = it["name"]
+                it["redef"] = True
             it["doc"] = _fin_doc(it["doc"], c)
+            c.defs.append(it)
             it["body"] = _fin_items(it["body"], c, True)
+            c.defs.pop()
         elif k == "set":
             it["name"] = _dup_name(c, "set", _num(it["name"], c), dup)
             it["values"] = _num(it["values"], c)
@@ -439,6 +448,9 @@ def _fin_items(lst, c, in_body):
         elif k == "dangling":
             it["doc"] = _fin_doc(it["doc"], c)
         out.append(it)
+        if it.get("redef") and c.n % 3 != 0:
+            # ... followed, in the enclosing body, by a cmake_parse_arguments call (belongs to the enclosing definition)
+            out.append({"k": "parseargs", "args": [f"PA{c.next()}", '""', '""', '""']})
     # a dangling doccomment must be followed by another doccomment (or EOF at top level): the grammar
     # attaches a doccomment to whatever command follows it
     fixed = []
